@@ -350,6 +350,23 @@ class GCodeCore(object):
                 self.set_distance_mode(previous)
 
     @contextmanager
+    def _tracked_as_absolute(self):
+        """Track absolute distance mode within a context, writing nothing."""
+
+        previous = self._distance_mode
+        self._track_distance_mode(DistanceMode.ABSOLUTE)
+
+        try:
+            yield
+        finally:
+            self._track_distance_mode(previous)
+
+    def _track_distance_mode(self, mode: DistanceMode) -> None:
+        """Change the tracked distance mode without writing it."""
+
+        self._distance_mode = mode
+
+    @contextmanager
     def relative_mode(self):
         """Temporarily set relative distance mode within a context.
 
@@ -587,9 +604,14 @@ class GCodeCore(object):
         move, params, comment = self._process_move_params(point, **kwargs)
         target_axes = self._current_axes.replace(*move)
 
-        with self.absolute_mode():
+        # Validate and track the move before the mode switch is written,
+        # so that a rejected move leaves no trace on the output
+
+        with self._tracked_as_absolute():
             statement, params = self._prepare_rapid(move, params, comment)
             self._update_axes(target_axes, params)
+
+        with self.absolute_mode():
             self.write(statement)
 
     @typechecked
@@ -615,9 +637,14 @@ class GCodeCore(object):
         move, params, comment = self._process_move_params(point, **kwargs)
         target_axes = self._current_axes.replace(*move)
 
-        with self.absolute_mode():
+        # Validate and track the move before the mode switch is written,
+        # so that a rejected move leaves no trace on the output
+
+        with self._tracked_as_absolute():
             statement, params = self._prepare_move(move, params, comment)
             self._update_axes(target_axes, params)
+
+        with self.absolute_mode():
             self.write(statement)
 
     @typechecked
